@@ -715,8 +715,12 @@ func (c *EvalCtx) localName(name string) (tv, bool) {
 		c.errf("local name %s is ambiguous (%d SSA values: %s; loop header block %d); name a phi or use a ghost", name, len(cands), strings.Join(where, ", "), hdr)
 	}
 	// free variables of closures
-	for _, fv := range fr.fn.FreeVars {
-		if fv.Name() == name {
+	var freeNames []string
+	if fc := c.ex.P.ContractFor(fr.fn); fc != nil && len(fc.FreeNames) == len(fr.fn.FreeVars) {
+		freeNames = fc.FreeNames
+	}
+	for fi, fv := range fr.fn.FreeVars {
+		if fv.Name() == name || (freeNames != nil && freeNames[fi] == name) {
 			if val, ok := st.vals[fv]; ok {
 				pt := fv.Type().Underlying().(*types.Pointer).Elem()
 				return c.loadPtr(val, pt), true
